@@ -231,10 +231,11 @@ def facade_for(target, values, wrappers=None, tag=None):
     return w
 
 
-def _call_facade(w, op, mask, ds, times):
+def _call_facade(w, op, mask, ds, times, wrappers=None):
     from groupby_lib.groupby.api import DataFrameGroupBy
 
     name = op["op"]
+    w0 = w
     if isinstance(w, DataFrameGroupBy) and op.get("api_select"):
         cols = list(w.value_columns)
         w = w[cols[0]] if op["api_select"] == 1 else w[cols]
@@ -258,7 +259,17 @@ def _call_facade(w, op, mask, ds, times):
     if name in ("cumsum", "cummin", "cummax"):
         return getattr(w, name)()
     if name.startswith("rolling_"):
-        return getattr(w.rolling(op["window"], op["min_periods"]), name[len("rolling_"):])(mask=mask, index_by_groups=op.get("ibg", False))
+        # `r = gb.rolling(3)` is an object of its own which the client keeps and reuses
+        r, key = None, ("rolling", op["window"], op["min_periods"], op.get("api_select", 0))
+        if wrappers is not None:
+            for t_, v_, tg_, obj_ in wrappers:
+                if t_ is w0 and v_ is None and tg_ == key:
+                    r = obj_
+        if r is None:
+            r = w.rolling(op["window"], op["min_periods"])
+            if wrappers is not None:
+                wrappers.append((w0, None, key, r))
+        return getattr(r, name[len("rolling_"):])(mask=mask, index_by_groups=op.get("ibg", False))
     if name == "ema":
         return w.ema(alpha=op["alpha"], mask=mask, index_by_groups=op.get("ibg", False))
     if name == "ema_timed":
@@ -282,7 +293,7 @@ def _denominator(ds, op):
     return a.copy()
 
 
-def call_op(gb, op, values, mask, ds, class_form_keys=None, times=None, wrappers=None, wrapper_tag=None, raw_keys=None):
+def call_op(gb, op, values, mask, ds, class_form_keys=None, times=None, wrappers=None, wrapper_tag=None, raw_keys=None, subset_mask=None):
     """Execute `op` on GroupBy `gb` (or in class form on raw keys, or through the
     pandas-style facade wrapped around `gb` when the op says so)."""
     from groupby_lib.groupby.core import GroupBy
@@ -295,7 +306,7 @@ def call_op(gb, op, values, mask, ds, class_form_keys=None, times=None, wrappers
             with np.errstate(all="ignore"):
                 w = facade_for(gb, values, wrappers, wrapper_tag)
                 if w is not None:
-                    return _call_facade(w, op, mask, ds, times)
+                    return _call_facade(w, op, mask, ds, times, wrappers)
 
     def m(method, *a, **k):
         if class_form_keys is not None:
@@ -317,7 +328,8 @@ def call_op(gb, op, values, mask, ds, class_form_keys=None, times=None, wrappers
             if name == "ratio":
                 return m("ratio", values, _denominator(ds, op), mask=mask, agg_func=op["agg_func"], margins=op["margins"])
             if name == "subset_ratio":
-                return m("subset_ratio", values, np.array(op["subset"], dtype=bool), global_mask=mask, agg_func=op["agg_func"], margins=op["margins"])
+                sub = np.array(op["subset"], dtype=bool) if subset_mask is None else subset_mask
+                return m("subset_ratio", values, sub, global_mask=mask, agg_func=op["agg_func"], margins=op["margins"])
             if name == "density":
                 return m("density", None if op["sizes"] else values, mask=mask, margins=op["margins"])
             if name in ("crosstab", "value_counts"):
